@@ -502,6 +502,11 @@ def merge_keys(ctx, report):
     merge_fold.run(ctx, report, clause="5", only=("R-RUNS",), rename={"R-RUNS": (
         "R-MERGE-KEY", "only captions that FOLLOW each other with the same (start, end) are merged "
                        "(merge_concurrent_captions folded on every sequence of timespans)")})
+    report.structural_section("SRT merge test (shape)", "R-DOC-CUES on the folded SRT documents (writer_doc_fold: consecutive captions "
+                              "with identical times, and with times that agree to the millisecond only)", merge_key_shape, ctx, report)
+
+
+def merge_key_shape(ctx, report):
     for path, q in (("pycaption/srt.py", "SRTWriter._recreate_lang"),):
         top = ctx.index.get_function(path, q)
         tests = []
@@ -547,6 +552,8 @@ def merge_keys(ctx, report):
             raise AnalysisError(f"{q}: expected one equality test of caption times guarding the merge, "
                                 f"found {len(tests)}")
         fn, n, pairs, t = tests[0]
+        if not all(isinstance(x, ast.Attribute) and x.attr in ("start", "end") for pr in pairs for x in pr):
+            raise AnalysisError(f"{q}: the merge test does not compare plain start / end attributes: {src(t)[:120]}")
         shape = []
         for l, r in pairs:
             la = (src(l.value), l.attr) if isinstance(l, ast.Attribute) else (src(l), None)
